@@ -371,6 +371,14 @@ pub fn nest_sql(shape: &str, n: usize) -> String {
         "cols" => format!("SELECT {}1 FROM T", "A, ".repeat(n)),
         "join" => format!("SELECT * FROM T{}", " JOIN T ON 1 = 1".repeat(n)),
         "union" => format!("SELECT 1{}", " UNION SELECT 1".repeat(n)),
+        "notplus" => format!("SELECT 1 + {}1", "NOT ".repeat(n)),
+        "interval" => format!("SELECT {}'1' DAY", "INTERVAL ".repeat(n)),
+        "subqparen" => {
+            // n levels in total: blocks of one subquery wrapped in 59 parentheses
+            let k = std::cmp::max(1, n / 60);
+            format!("SELECT {}1{}", format!("(SELECT {}", "(".repeat(59)).repeat(k), format!("{})", ")".repeat(59)).repeat(k))
+        }
+        "castnest" => format!("SELECT {}1{}", "CAST(".repeat(n), " AS INTEGER)".repeat(n)),
         "open" => "(".repeat(n),
         "quote" => format!("SELECT '{}", "x".repeat(n)),
         "ident" => format!("SELECT {}", "a".repeat(n)),
